@@ -12,6 +12,7 @@ import XmlDiffModel.Model.Patch
 import XmlDiffModel.Model.Match
 import XmlDiffModel.Model.Script
 import XmlDiffModel.Model.TextFormat
+import XmlDiffModel.Model.OldFormat
 import Std.Data.HashMap
 open XmlDiffModel
 
@@ -316,6 +317,21 @@ def doJson (args : List String) : String :=
     | none => "bad-op"
   | _ => "bad-op"
 
+def showOErr : OErr → String
+  | .patch e => "patch:" ++ showErr e | .indexError => "indexError" | .keyError => "keyError"
+  | .typeError => "typeError" | .noPath => "noPath"
+
+def doOld (args : List String) : String :=
+  match args with
+  | [fresh, ts, ss] =>
+    match fresh.toNat?, decTree ts, decScript ss with
+    | some f, some t, some sc =>
+      match oldFormat qnPlain { tree := t, next := f } sc with
+      | .ok txt => "ok " ++ encStr (some txt)
+      | .error e => "err " ++ showOErr e
+    | _, _, _ => "bad-op"
+  | _ => "bad-op"
+
 def doOrders (args : List String) : String :=
   match args with
   | [ts] => match decTree ts with
@@ -337,6 +353,7 @@ def handle (line : String) : String :=
   | "diff" :: args => doDiff args
   | "orders" :: args => doOrders args
   | "fmt" :: args => doFmt args
+  | "old" :: args => doOld args
   | "parse" :: args => doParse args
   | "json" :: args => doJson args
   | _ => "bad-op"
